@@ -6,6 +6,16 @@ DRIVER = "go.mongodb.org/mongo-driver BSON codec and Extended JSON (case seriali
 RAPID = "pgregory.net/rapid v1.3.0 generation and shrinking"
 
 CHECKS = {
+    "C10": {
+        "level": "exploration",
+        "rule": "Three generated sub-checks over mongokit.Match. agree: (document, filter) pairs in the core domain of DESIGN.md section 8.1 (documents of depth <= 2 with scalars of every type incl. Decimal128/NaN/Inf, embedded documents, arrays of scalars or documents; filters from the operator grammar, depth <= 2, 60% of paths and 40% of operands taken from the document itself) compared with the independent reference matcher harness/ref/match.go; pairs the reference classifies Outside/Invalid are counted, not compared. laws: on the wide domain (nested arrays, regex, all operands) 17 logical laws ($nor = not $or, $ne/$nin/$not exact negations, $and/$or/implicit-and as conjunction/disjunction, $in = disjunction of $eq, $gte = $gt or $eq, $exists, double negation, commutativity/idempotence) evaluated by lungo on both sides. meta: result invariant under appending an unrelated field, wrapping the document one level deeper with prefixed paths, and an order-preserving consistent renaming of fields. Non-trivial: agree = a filter path resolves to an existing value and the filter has >= 2 operators or touches an array / fans out (both truth values counted in classes); laws/meta = the path(s) resolve to an existing value. distinct = FNV-64 of the canonical Extended JSON of the case, per sub-check (capped 300000 per shard).",
+        "assumptions": [REF + " (ref.Match, ref.Walk, ref.Cmp)", DRIVER, RAPID, "agreement is only asserted inside the core domain (DESIGN.md 8.1); malformed operator arguments are outside the property's quantifier and only checked for no-panic"],
+        "subs": [
+            {"test": "TestProp_C10_agree", "quick": 150000, "thorough": 14000000, "shards_q": 1, "shards_t": 14, "budget_q": 300, "budget_t": 1500},
+            {"test": "TestProp_C10_laws", "quick": 30000, "thorough": 2800000, "shards_q": 1, "shards_t": 14, "budget_q": 300, "budget_t": 1500},
+            {"test": "TestProp_C10_meta", "quick": 60000, "thorough": 5600000, "shards_q": 1, "shards_t": 14, "budget_q": 300, "budget_t": 1500},
+        ],
+    },
     "C12": {
         "level": "exploration",
         "rule": "rapid draws triples (a,b,c) of BSON values from a collision-rich pool (all four numeric types around 0, 2^31, 2^53, 2^63, 1e23, non-finite doubles and decimals, random bits; strings, binaries, dates, timestamps, object ids, regexes, documents and arrays to depth 3); b and c are mutations of a in 75% of cases (equal copy, late difference, proper prefix, numeric type swap). Oracle: reflexive on a deep copy, agreement of sign(Compare) with the exact reference order for all 9 ordered pairs, antisymmetry, transitivity and interchangeability of equal values over all 27 orderings, invariance under identical array/document contexts. Non-trivial = some pair of the same type class differs or is equal across Go types, or the triple contains >= 2 numeric types; distinct = FNV-64 of the canonical Extended JSON of the triple (capped at 300000 per shard: a lower bound).",
